@@ -213,6 +213,9 @@ func (rt *Transfer) recvGenerator(idx int, f *File) error {
 			}
 			// fallthrough to create or replace the symlink
 		}
+		if rt.Opts.DryRun {
+			return nil
+		}
 		if rt.Opts.DebugGTE(rsyncopts.DEBUG_GENR, 1) {
 			rt.Logger.Printf("symlink %s -> %s", f.Name, f.LinkTarget)
 		}
@@ -229,6 +232,9 @@ func (rt *Transfer) recvGenerator(idx int, f *File) error {
 		mode == rsync.S_IFBLK ||
 		mode == rsync.S_IFSOCK ||
 		mode == rsync.S_IFIFO) {
+		if rt.Opts.DryRun {
+			return nil
+		}
 		if err := rt.createDevice(f, st); err != nil {
 			return err
 		}
@@ -272,8 +278,10 @@ func (rt *Transfer) recvGenerator(idx int, f *File) error {
 	if !st.Mode().IsRegular() {
 		// A non-regular file with this name exists. Delete it so that we can
 		// create our file instead.
-		if err := rt.DestRoot.Remove(f.Name); err != nil {
-			return fmt.Errorf("unlinking to make room for regular file: %v", err)
+		if !rt.Opts.DryRun {
+			if err := rt.DestRoot.Remove(f.Name); err != nil {
+				return fmt.Errorf("unlinking to make room for regular file: %v", err)
+			}
 		}
 		return requestFullFile()
 	}
